@@ -7,7 +7,7 @@ iteration must stop within a logical budget of read/recv calls.
 
 import io
 
-from vf import common, doubles, refmodel, streams
+from vf import common, doubles, refcrc, refmodel, streams
 
 LEVEL = "exploration"
 RULE = (
@@ -26,6 +26,9 @@ RULE += (
     ' at item boundaries; one scripted socket in four is TLS-like (has read()); 40 % of the defined'
     ' messages laid out from the pinned layouts.'
 )
+RULE += (
+    " Also: runs of related frames (counter byte +1, prefix of the previous payload, previous checksum inside the next payload), MSM triples with equal satellite / signal masks and growing cell masks, two-byte frames ending in 0xFE."
+)
 ASSUMPTIONS = [
     "NMEA sentences are CRLF-terminated printable ASCII; UBX frames are complete; noise excludes 0xD3/0xB5/0x24",
     "delivered frames whose payload is shorter than 2 bytes (3 for 4076) are ignored: the property does not speak of them",
@@ -35,7 +38,7 @@ GATES = ["frames_compared", "runs_with_pauses", "iteration_resumed_after_pause",
          "kind:len1", "kind:len2-4076", "kind:ubxbig"]
 
 KINDS = ("defined", "defined", "defined", "unknown", "unknown", "len0", "len1", "len2", "len2-4076", "len255",
-         "len256", "len1022", "len1023", "defmax", "steered", "steered")
+         "len256", "len1022", "len1023", "defmax", "steered", "steered", "len2-fe")
 
 
 def make_items(rng, n=None, adversarial=None):
@@ -86,6 +89,42 @@ def make_items(rng, n=None, adversarial=None):
         for _ in range(rng.randint(2, 5)):
             fr, p, _ = streams.rand_frame(rng, "unknown")
             run.append(("unknown", fr, p))
+        items[i:i] = run
+    elif adversarial == "related-run":
+        # consecutive frames that are RELATED: a counter byte going up by one, equal lengths, one payload a prefix of
+        # the previous one, the previous frame's checksum bytes repeated inside the next payload
+        i = rng.randrange(len(items) + 1)
+        base = streams.rand_unknown_payload(rng, rng.randint(6, 40))
+        run = [("unknown", refcrc.frame(base), base)]
+        for step in range(rng.randint(2, 5)):
+            prev = run[-1][2]
+            kind = rng.randrange(4)
+            if kind == 0:
+                j = rng.randrange(2, len(prev))
+                nxt = prev[:j] + bytes([(prev[j] + 1) & 0xFF]) + prev[j + 1:]
+            elif kind == 1:
+                nxt = prev[: max(3, len(prev) - rng.randint(1, 3))]
+            elif kind == 2:
+                nxt = prev[:2] + bytes(rng.getrandbits(8) for _ in range(len(prev) - 2))
+            else:
+                nxt = prev[:2] + refcrc.frame(prev)[-3:] + prev[5:] if len(prev) > 6 else prev + b"\x01"
+            run.append(("unknown", refcrc.frame(nxt), nxt))
+        if rng.random() < 0.4:
+            # two MSM frames of one constellation with the same satellite and signal masks, the second with MORE cells
+            import random as _r
+
+            ident = rng.choice(("1074", "1084", "1094", "1124", "1077", "1127"))
+            nsat, nsig = rng.randint(2, 6), rng.randint(2, 4)
+            sat = sum(1 << b for b in rng.sample(range(64), nsat))
+            sig = sum(1 << b for b in rng.sample(range(32), nsig))
+            cm1 = rng.getrandbits(nsat * nsig) & rng.getrandbits(nsat * nsig) | 1
+            for cm in (cm1, (1 << (nsat * nsig)) - 1, cm1):
+                try:
+                    e_ = refmodel.build(ident, _r.Random(rng.getrandbits(32)), "random", "small", "random",
+                                        force={"DF394": sat, "DF395": sig, "DF396": cm})
+                    run.append(("defined", refcrc.frame(e_.payload), e_.payload))
+                except Exception:
+                    pass
         items[i:i] = run
     elif adversarial == "filler-run":
         i = rng.randrange(len(items) + 1)
@@ -338,7 +377,7 @@ def run(ctx):
         run_case(ctx, big, "socket", 0, {"sizes": [rng.choice((1460, 4096, 8192, 65536)) for _ in range(1200)],
                                          "bufsize": rng.choice((4096, 65536))})
         ctx.hit("long_socket_sessions")
-    advs = (None, None, "zero-first", "zero-last", "zero-max", "unknown-run", "filler-run")
+    advs = (None, None, "zero-first", "zero-last", "zero-max", "unknown-run", "filler-run", "related-run")
     for i in range(ctx.n(24000, 300000)):
         items = make_items(rng, adversarial=advs[i % len(advs)])
         backend = ("file", "buffered", "socket", "serial", "buffered", "socket", "pipe", "makefile", "file")[i % 9]
